@@ -301,7 +301,8 @@ def run(ck):
     secs = {}
     # 3./4. every stream under its own guard: implementation-only oracles first (they need neither tables nor model)
     for name, fn in [("known_defect", lambda: known_defect(ck)), ("evolution_grid", lambda: stream_grid(ck)),
-                     ("exp_word_float", lambda: stream_exp_word_float(ck)), ("oracle", lambda: stream_oracle(ck)),
+                     ("exp_word_float", lambda: stream_exp_word_float(ck)), ("convergence", lambda: stream_convergence(ck)),
+                     ("oracle", lambda: stream_oracle(ck)),
                      ("exp_word", lambda: stream_exp_word(ck, pre)), ("time_evolution", lambda: stream_time_evolution(ck, pre)),
                      ("suzuki", lambda: stream_suzuki(ck, pre)), ("fermion", lambda: stream_fermion(ck, pre))]:
         t0 = _time.time()
@@ -746,6 +747,83 @@ def stream_suzuki(ck, pre):
                          {"kind": "suzuki", "order": o, "terms": m})
 
 
+# ------------------------------------------------------------------------------------------ convergence order
+def seq_unitary(terms, t, n, order, nq):
+    """(prod_j exp(-i c_j P_j))^n for the coefficient sequence the IMPLEMENTATION returns for one step of length t/n
+    (exact 2^nq x 2^nq exponentials cos c I - i sin c P; no circuit)."""
+    from tangelo.toolboxes.ansatz_generator.ansatz_utils import recursive_trotter_suzuki_decomposition
+    seq = recursive_trotter_suzuki_decomposition([(tuple(w), c) for w, c in terms], order, t / n)
+    U = np.eye(1 << nq, dtype=complex)
+    mats = {}
+    for w, c in seq:
+        if w not in mats:
+            mats[w] = word_matrix(list(w), nq)
+        U = (math.cos(c) * np.eye(1 << nq) - 1j * math.sin(c) * mats[w]) @ U
+    return np.linalg.matrix_power(U, n)
+
+
+def convergence_case(terms, order, nq, t=None, circuit=False):
+    """Error of the order-p formula with 2 and with 4 steps at a time t chosen so that the 2-step error lies in
+    [3e-7, 1e-5] (well above rounding, small enough for the leading term to dominate).  Halving the step of a p-th
+    order formula divides the error by about 2^p.  Returns (t, e2, e4) at sequence level, or at circuit level
+    (trotterize + numpy simulation) when circuit=True."""
+    Hm = op_matrix(terms, nq)
+
+    def err(tt, n):
+        if circuit:
+            d, _ = evolve_deviation(terms, tt, n, order, None)
+            return d
+        return snorm(seq_unitary(terms, tt, n, order, nq) - expm_h(Hm, tt))
+    if t is None:
+        t = 1.5
+        for _ in range(30):
+            e2 = snorm(seq_unitary(terms, t, 2, order, nq) - expm_h(Hm, t))
+            if 3e-7 <= e2 <= 1e-5:
+                break
+            t *= min(2.0, max(0.5, (2e-6 / max(e2, 1e-300)) ** (1.0 / (order + 1))))
+    return t, err(t, 2), err(t, 4)
+
+
+def stream_convergence(ck):
+    """Implementation-only: the requested Trotter order must be the order at which the error decreases."""
+    rng = ck.rng
+    quick = ck.tier == "quick"
+    ck.stream("convergence-order", "small NON-COMMUTING operators (2-3 terms on 2-3 qubits, real coefficients), trotter_order p in {2, 4, 6, 8}: with the time chosen so that the "
+              "2-step error is in [3e-7, 1e-5], error(2 steps) / error(4 steps) >= 2^(p-1.5) (a p-th order formula gives ~2^p; measured on the unchanged tree: 15.9-16.2, "
+              "63-81, 390-670 for p = 4, 6, 8).  Evaluated on the coefficient sequence returned by recursive_trotter_suzuki_decomposition (exact exponentials) and, for a "
+              "subset, end to end on the circuits of trotterize; numerical support for the clause 'higher even orders: convergence'")
+    for order in (2, 4, 6, 8):
+        n_ops = 3 if quick else 12
+        n_circ = (1 if order <= 6 else 0) if quick else 3
+        for i in range(n_ops):
+            nq = 2 if (i < n_circ and order == 8) else rng.choice([2, 3])
+            while True:
+                terms = [(rand_word(rng, nq), rng.uniform(0.4, 1.6) * rng.choice([-1, 1])) for _ in range(rng.randint(2, 3))]
+                if len({tuple(w) for w, _ in terms}) == len(terms) and \
+                        not all(commute_words(a, b) for (a, _), (b, _) in itertools.combinations(terms, 2)):
+                    break
+            for level in (["sequence", "circuit"] if i < n_circ else ["sequence"]):
+                rep = {"kind": "convergence", "terms": terms, "order": order, "nq": nq, "level": level}
+                try:
+                    t, e2, e4 = convergence_case(terms, order, nq)
+                    if level == "circuit":
+                        t, e2, e4 = convergence_case(terms, order, nq, t=t, circuit=True)
+                except Exception as e:
+                    ck.violation("C06/trotter-order/raises-%s" % type(e).__name__, "order %d on %s raises %s: %s" % (order, terms, type(e).__name__, e), rep)
+                    continue
+                rep["t"] = t
+                ratio = e2 / e4 if e4 > 0 else float("inf")
+                ck.case("convergence-order", repr((terms, order, level)), nontrivial=True,
+                        sample={"terms": terms, "order": order, "level": level, "t": t, "err_2_steps": e2, "err_4_steps": e4, "ratio": ratio}, tags=["order%d" % order, level])
+                if not (1e-8 <= e2 <= 1e-4 and e4 >= 1e-11):
+                    ck.not_evaluated += 1
+                    continue
+                if ratio < 2 ** (order - 1.5):
+                    ck.violation("C06/trotter-order/convergence/order%d" % order,
+                                 "trotter_order=%d on H=%s (%s level, t=%.4g): error %.3g with 2 steps, %.3g with 4 steps: ratio %.1f, a formula of order %d gives about %d "
+                                 "(the error decreases like order %.1f)" % (order, terms, level, t, e2, e4, ratio, order, 2 ** order, math.log2(max(ratio, 1e-9))), rep)
+
+
 # ------------------------------------------------------------------------------------------ numerical oracle
 def evolve_deviation(terms, time, n, order, control, api="trotterize"):
     """||U_circuit * phase - (controlled) exp(-i sum_k t_k c_k P_k)||_2 and the list of term matrices."""
@@ -914,6 +992,11 @@ def replay(data):
         e, d = identity_multictrl_case(r["control"])
         print("control", r["control"], "raised" if e is not None else "ok", repr(e), d)
         return 1 if (e is not None or d > TOL) else 0
+    if k == "convergence":
+        terms = [([tuple(x) for x in w], c) for w, c in r["terms"]]
+        t, e2, e4 = convergence_case(terms, r["order"], r["nq"], t=r.get("t"), circuit=(r.get("level") == "circuit"))
+        print("order", r["order"], "t", t, "errors", e2, e4, "ratio", e2 / e4, "required", 2 ** (r["order"] - 1.5))
+        return 1 if e2 / e4 < 2 ** (r["order"] - 1.5) else 0
     if k == "grid":
         if r["op_kind"] == "qubit":
             terms = [([tuple(x) for x in w], c) for w, c in r["terms"]]
